@@ -267,6 +267,23 @@ package template
 //@     invariant i > 0 ==> classof(sc0) >= 1
 //@     invariant forall(k, 0, i, contentmin(at(elems, k)) != 0 && trustge(classof(sc0), contentmin(at(elems, k))))
 
+//@ func isSrcsetWhiteSpace(c byte) (r bool)
+//@   serves C02 C14 C04
+//@   ensures spec: r == htmlws(c)
+
+//@ func srcsetCandidatePrefix(value string) (r string)
+//@   serves C02 C14 C04
+//@   ensures spec: ite(exists(k, candstart(value), len(value), htmlws(value[k])), len(r) == 0, sameview(r, sub(value, candstart(value), len(value))))
+//@   loop 1
+//@     invariant 0 <= i && i <= len(value) && 0 <= start && start <= i && start == lastcomma(value, i)
+//@     decreases len(value) - i
+//@   loop 2
+//@     invariant lastcomma(value, len(value)) <= start && start <= len(value) && skipws(value, start) == candstart(value)
+//@     decreases len(value) - start
+//@   loop 3
+//@     invariant start == candstart(value) && start <= i && i <= len(value) && forall(k, start, i, !htmlws(value[k]))
+//@     decreases len(value) - i
+
 //@ func validateDoesNotEndsWithCharRefPrefix(prefix string) (err error)
 //@   serves C14 C02 C04
 //@   ensures spec: isnil(err) == !inlang(re_endsWithCharRefPrefixPattern, prefix)
